@@ -19,6 +19,7 @@ inductive Op where
   | chanRecv (ch : Nat)                -- <-ch             (may block)
   | chanLen (ch : Nat)                 -- len(ch)
   | assignNil (field : String)
+  | aliasAppend (text : String)         -- `x := append(obj.field, …)`: x may share obj.field's backing array
   | goStmt (what : String)
   | unknown (text : String)            -- anything touching a lock / channel / tracked field in an unrecognised shape
   deriving DecidableEq, Repr
